@@ -187,26 +187,24 @@ func UnmarshalAttribute(attr *api.Attribute) (bgp.PathAttributeInterface, error)
 					}
 				case *api.TunnelEncapTLV_TLV_SrSegmentList:
 					var err error
-					weight := uint32(0)
-					flags := uint8(0)
-					if sv.SrSegmentList.Weight != nil {
-						weight = sv.SrSegmentList.Weight.Weight
-						flags = uint8(sv.SrSegmentList.Weight.Flags)
-					}
 					s := &bgp.TunnelEncapSubTLVSRSegmentList{
 						TunnelEncapSubTLV: bgp.TunnelEncapSubTLV{
 							Type:   bgp.ENCAP_SUBTLV_TYPE_SRSEGMENT_LIST,
-							Length: uint16(6), // Weight (6 bytes) + length of segment (added later, after all segments are discovered)
+							Length: uint16(0), // length of the weight and of the segments is added below
 						},
-						Weight: &bgp.SegmentListWeight{
+						Segments: make([]bgp.TunnelEncapSubTLVInterface, 0),
+					}
+					// the weight sub-TLV is optional
+					if sv.SrSegmentList.Weight != nil {
+						s.Length += 6
+						s.Weight = &bgp.SegmentListWeight{
 							TunnelEncapSubTLV: bgp.TunnelEncapSubTLV{
 								Type:   bgp.SegmentListSubTLVWeight,
 								Length: uint16(6),
 							},
-							Flags:  flags,
-							Weight: weight,
-						},
-						Segments: make([]bgp.TunnelEncapSubTLVInterface, 0),
+							Flags:  uint8(sv.SrSegmentList.Weight.Flags),
+							Weight: sv.SrSegmentList.Weight.Weight,
+						}
 					}
 					if len(sv.SrSegmentList.Segments) != 0 {
 						s.Segments, err = UnmarshalSRSegments(sv.SrSegmentList.Segments)
@@ -2800,15 +2798,15 @@ func NewTunnelEncapAttributeFromNative(a *bgp.PathAttributeTunnelEncap) (*api.Tu
 				if err != nil {
 					return nil, err
 				}
-				subTlv.Tlv = &api.TunnelEncapTLV_TLV_SrSegmentList{
-					SrSegmentList: &api.TunnelEncapSubTLVSRSegmentList{
-						Weight: &api.SRWeight{
-							Flags:  uint32(sv.Weight.Flags),
-							Weight: sv.Weight.Weight,
-						},
-						Segments: s,
-					},
+				sl := &api.TunnelEncapSubTLVSRSegmentList{Segments: s}
+				// the weight sub-TLV is optional: the decoder leaves Weight nil when it is absent
+				if sv.Weight != nil {
+					sl.Weight = &api.SRWeight{
+						Flags:  uint32(sv.Weight.Flags),
+						Weight: sv.Weight.Weight,
+					}
 				}
+				subTlv.Tlv = &api.TunnelEncapTLV_TLV_SrSegmentList{SrSegmentList: sl}
 			}
 			subTlvs = append(subTlvs, &subTlv)
 		}
